@@ -48,9 +48,19 @@ def run(F, rep, tier):
     contradiction_info(F, rep)
 
 
-def copy_discipline(F, rep, only_declaration=False):
+def copy_discipline(F, rep, only_declaration=False, only_generalised=False):
     n = 0
     real = rep
+    if only_generalised:
+        import core
+        scratch = core.Report("_", "quick")
+        copy_discipline(F, scratch)
+        for o in scratch.obs:
+            if o["key"].startswith("expression|Read|variable-type") or o["key"].endswith("|insertions") or \
+                    o["key"] == "expression|-|result-of-any-expression":
+                real.obs.append(o)
+                real.sites += 1
+        return
     if only_declaration:
         import core
         rep = core.Report("_", "quick")
@@ -72,6 +82,18 @@ def copy_discipline(F, rep, only_declaration=False):
             if d == "match(..)" and not ctxname:
                 d = "result-of-any-expression"
             key = "%s|%s|%s" % (fname, ctxname or "-", d)
+            if fname == "expression" and ctxname.startswith("Read"):
+                # the value of a variable: a fresh instance only for let-generalised constants
+                key = "expression|Read|variable-type"
+                g = _generalised_guard(F, fl, c, parents)
+                rep.ob("COPY", key + "|only-generalised", g is not None,
+                       "reading a variable instantiates its type afresh only under `%s`: parameters, mutable variables and a "
+                       "function inside its own body keep one type" % g if g else
+                       "the Read arm copies the type of any variable: a function-typed parameter (`f: fn *A -> *A`) can then be "
+                       "called at two different types and any function passed for it is accepted", line_of(c))
+                if g:
+                    _generalised_insertions(F, rep, g)
+                continue
             if d.startswith("varty:"):
                 # the type of a variable: only declarations named as a type / constructor are generalisable
                 ref = d.split(":", 1)[1]
@@ -93,7 +115,7 @@ def copy_discipline(F, rep, only_declaration=False):
                        line_of(c))
             else:
                 # dead code is tolerated: copying a field type when the *outer* value is a function can never happen
-                dead = fname == "expression" and ctxname.startswith("BlobAccess")
+                dead = fname == "expression" and ctxname.startswith("BlobAccess") and _guarded_by_outer_being_a_function(fl, c, parents)
                 rep.ob("COPY", key, dead,
                        ("copy() of `%s` is unreachable here (a value with a Field constraint cannot be a function)" % d) if dead else
                        ("copy() is applied to `%s`, the result of an arbitrary expression: a function-typed value bound by a "
@@ -107,6 +129,88 @@ def copy_discipline(F, rep, only_declaration=False):
                 real.sites += 1
         return
     rep.floor("COPY", "copy() call sites", n, 5)
+
+
+def _guarded_by_outer_being_a_function(fl, copy_call, parents):
+    """`match self.find_type(outer) { Function => copy(field) }` with `outer` the value a Field constraint was just added
+    to: that arm cannot be taken"""
+    for p in reversed(parents):
+        if p.get("k") == "Match":
+            sc = peel(p["scrut"])
+            if sc.get("k") == "MethodCall" and callee(sc) == TC + "find_type":
+                return tc.describe(fl, sc["args"][0]).startswith(("exprof:", "retof:"))
+    return False
+
+
+def _generalised_guard(F, fl, copy_call, parents):
+    """name of the TypeChecker set whose membership (of the variable being read) guards the copy, or None"""
+    for p in reversed(parents):
+        if p.get("k") != "If":
+            continue
+        if not any(x is copy_call for x in nodes(p["t"])):
+            continue
+        for x in nodes(p["c"]):
+            cand = x
+            if x.get("k") == "Path" and x.get("res") == "Local":
+                cand = fl.trace(x)
+            for m in nodes(cand, "MethodCall") if isinstance(cand, dict) else []:
+                r = peel(m["recv"])
+                if m["m"] in ("contains", "contains_key") and r.get("k") == "Field" and \
+                        ty_is((r.get("base_ty") or "").replace("&mut ", "").replace("&", ""), TCM + "TypeChecker") and \
+                        tc.root_field(fl, m["args"][0]) in ("var", "0"):
+                    return r["name"]
+    return None
+
+
+def _generalised_insertions(F, rep, setname):
+    """who puts a variable into that set: (a) definition(), after the value has been checked (so not the function inside
+    its own body), for immutable definitions whose value is a function literal or names a generalised constant; (b) the
+    ExternalDefinition arm of outer_statement (the declaration is all there is).  Nothing else - in particular not the
+    code that introduces parameters."""
+    sites = []
+    for fn in F.fns_in(TCM):
+        for n_, parents in walk(fn_body(fn)):
+            if n_.get("k") == "MethodCall" and n_["m"] == "insert":
+                r = peel(n_["recv"])
+                if r.get("k") == "Field" and r["name"] == setname and \
+                        ty_is((r.get("base_ty") or "").replace("&mut ", "").replace("&", ""), TCM + "TypeChecker"):
+                    sites.append((fn, n_, parents))
+    ok_all = bool(sites)
+    notes = []
+    for fn, n_, parents in sites:
+        fname = last(fn["_path"])
+        if fname == "definition":
+            body = fn_body(fn)
+            # after the call that checks the value, in statement order
+            order = [x for x in nodes(body) if (x.get("k") == "MethodCall" and callee(x) == TC + "expression") or x is n_]
+            after = any(x is n_ for x in order[1:]) and order and order[0] is not n_
+            cond = [p for p in parents if p.get("k") == "If"]
+            txt = " ".join(pp(p["c"]) for p in cond)
+            immut = "immutable" in txt
+            shape = False
+            fl = Flow(fn, body)
+            for p in cond:
+                for x in nodes(p["c"], "Path"):
+                    if x.get("res") == "Local":
+                        src = fl.trace(x)
+                        if isinstance(src, dict) and src.get("k") == "Match":
+                            vs = {last(pat_variant(alt) or "_") for a in src["arms"] for alt in pat_alternatives(a["pat"])
+                                  if peel(a["body"]).get("v") is True or peel(a["body"]).get("k") == "MethodCall"}
+                            shape = vs <= {"Function", "Read"} and "Function" in vs
+            good = after and immut and shape
+            notes.append("definition(): after the value is checked=%s, immutable only=%s, function literal / generalised name only=%s" % (after, immut, shape))
+        elif fname == "outer_statement":
+            good = "ExternalDefinition" in (tc._arm_context(parents) or "")
+            notes.append("outer_statement: in the ExternalDefinition arm=%s" % good)
+        else:
+            good = False
+            notes.append("%s: not a place where a binding is generalised" % fname)
+        ok_all = ok_all and good
+    rep.ob("COPY", "%s|insertions" % setname, ok_all,
+           "variables enter `%s` only where a binding may be generalised (%s)" % (setname, "; ".join(notes)) if ok_all else
+           "`%s` - the set of variables whose type is instantiated afresh on every read - is filled somewhere it must not be (%s): "
+           "a parameter, a mutable variable, or a function while its own body is checked would be usable at several types"
+           % (setname, "; ".join(notes) or "no insertion found"), sites[0][1].get("sp") if sites else None, sites=len(sites))
 
 
 def _declaration_sets(F):
